@@ -266,6 +266,20 @@ pub fn extract_field_number(field_tag: &str) -> String {
         .collect()
 }
 
+/// Longest a party identifier line may be, leading slash included: /1!a/34x has 37 characters
+/// at most, /34x has 35. (A line without the slash is not an identifier line at all; the fields
+/// that accept one for compatibility allow it the 34x.)
+pub fn party_identifier_line_max(line: &str) -> usize {
+    let b = line.as_bytes();
+    if b.first() != Some(&b'/') {
+        34
+    } else if b.len() >= 3 && b[1].is_ascii_alphabetic() && b[2] == b'/' {
+        37
+    } else {
+        35
+    }
+}
+
 /// Parse party identifier in format /1!a/34x, /2!a/34x, //XX, or /34x
 /// Used in fields 51-59 for institutional and party identification
 pub fn parse_party_identifier(input: &str) -> Result<Option<String>, ParseError> {
@@ -274,6 +288,11 @@ pub fn parse_party_identifier(input: &str) -> Result<Option<String>, ParseError>
     }
 
     let remaining = &input[1..];
+    if remaining.is_empty() {
+        return Err(ParseError::InvalidFormat {
+            message: "Party identifier is empty after '/'".to_string(),
+        });
+    }
 
     // Handle special //XX format (e.g., //FW, //RT, //AU, //IN)
     if let Some(special_code) = remaining.strip_prefix('/') {
@@ -302,12 +321,9 @@ pub fn parse_party_identifier(input: &str) -> Result<Option<String>, ParseError>
             return Ok(Some(format!("{}/{}", code, id)));
         }
 
-        // Handle /2!a/34x format (e.g., /CH/, /FW/, /CP/)
-        if (1..=2).contains(&code.len())
-            && code
-                .chars()
-                .all(|c| c.is_ascii_alphabetic() || c.is_ascii_digit())
-        {
+        // Handle /2!a/34x format (e.g., /CH/, /FW/, /CP/): two letters. Anything else before the
+        // second slash is no code, and the whole is read as /34x below
+        if code.len() == 2 && code.chars().all(|c| c.is_ascii_alphabetic()) {
             if id.len() > 34 {
                 return Err(ParseError::InvalidFormat {
                     message: format!("Party identifier exceeds 34 characters: {}", id.len()),
@@ -316,8 +332,9 @@ pub fn parse_party_identifier(input: &str) -> Result<Option<String>, ParseError>
             parse_swift_chars(id, "party identifier")?;
             return Ok(Some(format!("{}/{}", code, id)));
         }
-    } else if remaining.len() <= 34 {
-        // Simple /34x format (no additional slash)
+    }
+    if remaining.len() <= 34 {
+        // Simple /34x format (a slash inside it is an ordinary character of the x set)
         parse_swift_chars(remaining, "party identifier")?;
         return Ok(Some(remaining.to_string()));
     }
